@@ -42,7 +42,7 @@ struct E3 : Engine {
 
 	// "k0", "j@", "iP", "h`" have the same cppcms string_hash (16*c1+c2 = 1760): in every table size they share one bucket chain
 	static bool &colliding(){ static bool v = false; return v; }
-	static std::string key_name(int k){ k = ((k % 100) + 100) % 100; static const char *coll[] = {"k0","j@","iP","h`","k0_xybkckgp"}; if(colliding() && k < 5) return coll[k];   // the fifth has "k0" as a proper prefix and the same hash return "k" + std::to_string(k); }
+	static std::string key_name(int k){ k = ((k % 100) + 100) % 100; static const char *coll[] = {"k0","j@","iP","h`","k0_xybkckgp"}; if(colliding() && k < 5) return coll[k];   /* the fifth has "k0" as a proper prefix and the same hash */ return "k" + std::to_string(k); }
 	static std::string trig_name(int t){ t = ((t % 1000) + 1000) % 1000; if(colliding() && t == 1) return "t0_cybbclep"; return t >= 100 ? key_name(t-100) : "t" + std::to_string(t); }
 
 	RunResult run(const J &plan) override {
